@@ -330,6 +330,12 @@ func (check) Enumerate(tier string, seed int64, group int, yield func(core.Case)
 					ok = enumDesc(s, v, n, yield)
 				case "skip":
 					ok = enumSkip(s, v, n, yield)
+					if ok && n == 2 && (hasString(s) || hasBinary(s)) {
+						// same value with the first string grown past a page (4096..) to exercise long payload skips
+						lv := tbin.Clone(v)
+						growFirstString(lv, 4100)
+						ok = enumSkip(s, lv, 4100, yield)
+					}
 				}
 				if !ok {
 					return
@@ -869,4 +875,27 @@ func (check) SelfCheck() error {
 		}
 	}
 	return tutil.CrossCheckGopkg(all)
+}
+
+func growFirstString(v *tbin.Val, n int) bool {
+	if v.T == tbin.STRING {
+		v.S = bytes.Repeat([]byte{'L'}, n)
+		return true
+	}
+	for _, e := range v.K {
+		if growFirstString(e, n) {
+			return true
+		}
+	}
+	for _, e := range v.L {
+		if growFirstString(e, n) {
+			return true
+		}
+	}
+	for _, f := range v.Fs {
+		if growFirstString(f.V, n) {
+			return true
+		}
+	}
+	return false
 }
